@@ -82,6 +82,22 @@ def cases():
         yield {'part': part, 'allocs': allocs, 'rsrc': rs2, 'old_id': 'a/old/cell'}
 
 
+def cases2():
+    """Two limited traits, reservations carrying both, the replaced reservation not last in the listing."""
+    for l1, l2, rtr, old_pos, rcpu, rmem in itertools.product(
+            [('60%', '6G', '6G'), ('30%', '3G', '3G')], [('60%', '6G', '6G'), ('30%', '2G', '3G')],
+            [['t1', 't2'], ['t2'], ['t2', 't1'], []], [0, 1, 2], ['20%', '40%', '60%'], ['1G', '2G', '5G']):
+        part = {'cpu': '100%', 'memory': '8G', 'disk': '8G',
+                'limits': [{'trait': 't1', 'cpu': l1[0], 'memory': l1[1], 'disk': l1[2]},
+                           {'trait': 't2', 'cpu': l2[0], 'memory': l2[1], 'disk': l2[2]}]}
+        allocs = [{'_id': 'a/x/cell', 'cpu': '20%', 'memory': '1G', 'disk': '2G', 'traits': ['t1', 't2']},
+                  {'_id': 'a/y/cell', 'cpu': '20%', 'memory': '2G', 'disk': '1G', 'traits': ['t2', 't1']},
+                  {'_id': 'a/z/cell', 'cpu': '30%', 'memory': '3G', 'disk': '3G', 'traits': []}]
+        old = allocs[old_pos]['_id']
+        yield {'part': part, 'allocs': allocs, 'old_id': old,
+               'rsrc': {'cpu': rcpu, 'memory': rmem, 'disk': rmem, 'partition': 'p', 'traits': rtr}}
+
+
 def main(argv):
     if argv[0] == '--input':
         case = json.loads(argv[1])
@@ -90,7 +106,7 @@ def main(argv):
         print('result:', why or 'agrees with the property')
         return 1 if why else 0
     n = 0
-    for case in cases():
+    for case in itertools.chain(cases(), cases2()):
         n += 1
         why = run(case)
         if why:
